@@ -230,6 +230,7 @@ pub fn run(cfg: &Cfg) -> i32 {
                 cont_max: h % 3 == 0,
                 set_vars: h % 2 == 0 && !plain,
                 stop_at_end: true,
+                bad_calls: h >= 1,
                 // jump anywhere: also into knots that expect arguments, functions, tunnels
                 jump_targets: Some(c.info.knots.clone()),
             };
